@@ -22,7 +22,14 @@ def _map_arrays(x, f, counter, every=False):
     if isinstance(x, dict):
         return {k: _map_arrays(v, f, counter, every) for k, v in x.items()}
     if every:
-        return x  # (dtype variants: plain arrays only)
+        # dtype variants: plain arrays only. Everything else (estimators among the arguments ...) gets its OWN copy: the
+        # variant is another input, and an object the base sample's call has already fitted is a different history
+        try:
+            import copy
+
+            return copy.deepcopy(x)
+        except Exception:
+            return x
     try:
         import xarray as xr
     except Exception:  # pragma: no cover
